@@ -839,7 +839,12 @@ def _oracle_hist(case, obs):
             for q, got in zip(st["depths"], out["positions"]):
                 if not _is_exact(got) or any(x is None for x in got) or tuple(Fraction(x) for x in got) != path.pos(q):
                     where = "collar-at-zero" if q == 0 else "query"
-                    fails.append({"key": "collar-inplace-stale" if inplace_pending else f"stale-path-{where}", "what": f"step {k}: desurvey({q}) = {got}, the path of the current collar "
+                    # the recorded defect: accepted in-place write into the collar array, no setter call since: the cached path
+                    # keeps the OLD collar, i.e. the position is the expected one shifted along x only
+                    want = path.pos(q)
+                    xs = (inplace_pending and _is_exact(got) and all(x is not None for x in got)
+                          and Fraction(got[0]) != want[0] and Fraction(got[1]) == want[1] and Fraction(got[2]) == want[2])
+                    fails.append({"key": "collar-inplace-stale" if xs else f"stale-path-{where}", "what": f"step {k}: desurvey({q}) = {got}, the path of the current collar "
                                   f"{collar} and surveys gives {tuple(map(str, path.pos(q)))}"})
                     return fails
         else:
